@@ -30,6 +30,9 @@ Umv(pic) == pic.hk = "plus" /\ "umv" \in DOMAIN pic /\ pic.umv = 1
 (* A PLUSPTYPE header with UFEP = 000 does not retransmit OPPTYPE: the picture has the size (fields w, h of the abstract  *)
 (* picture) and the optional modes of the picture before it.  Only predicted pictures may be sent that way.               *)
 Ufep0(pic) == pic.hk = "plus" /\ "ufep0" \in DOMAIN pic /\ pic.ufep0 = 1
+(* Custom picture clock frequency (OPPTYPE bit 4): CPCFC and the two ETR bits follow CPFMT and the temporal reference has  *)
+(* ten bits (pic.tr in 0..1023, its low eight in TR).                                                                     *)
+Pcf(pic) == pic.hk = "plus" /\ "pcf" \in DOMAIN pic /\ pic.pcf = 1 /\ ~Ufep0(pic)
 RECURSIVE UmvDataBits(_, _)
 UmvDataBits(m, k) == IF k = 0 THEN <<>> ELSE <<(m \div Pow2(k - 1)) % 2, 1>> \o UmvDataBits(m, k - 1)
 RECURSIVE Log2Floor(_)
@@ -66,12 +69,13 @@ HeaderBits(pic) ==
            \o ToBits(IF pic.pt = "I" THEN 0 ELSE 1, 3) \o <<0, 0, 0>> \o <<0, 0, 1>>
            \o <<0>> \o ToBits(pic.q, 5) \o PeiBits(pic.pei, 1)
       [] pic.hk = "plus" ->      \* PSC TR PTYPE(8, format 111) UFEP=001 OPPTYPE MPPTYPE CPM CPFMT PQUANT PEI
-           StartCode \o Zeros(5) \o ToBits(pic.tr, 8) \o <<1, 0, 0, 0, 0, 1, 1, 1>>
+           StartCode \o Zeros(5) \o ToBits(pic.tr % 256, 8) \o <<1, 0, 0, 0, 0, 1, 1, 1>>
            \o <<0, 0, 1>>                                              \* UFEP
-           \o <<1, 1, 0>> \o <<0, IF Umv(pic) THEN 1 ELSE 0>> \o Zeros(9) \o <<1, 0, 0, 0>>   \* OPPTYPE: custom format; optionally UMV
+           \o <<1, 1, 0>> \o <<IF Pcf(pic) THEN 1 ELSE 0, IF Umv(pic) THEN 1 ELSE 0>> \o Zeros(9) \o <<1, 0, 0, 0>>   \* OPPTYPE: custom format; optionally UMV
            \o ToBits(IF pic.pt = "I" THEN 0 ELSE 1, 3) \o <<0, 0, 0>> \o <<0, 0, 1>>     \* MPPTYPE
            \o <<0>>                                                    \* CPM
            \o <<0, 0, 0, 1>> \o ToBits((pic.w \div 4) - 1, 9) \o <<1>> \o ToBits(pic.h \div 4, 9)   \* CPFMT, square pixels
+           \o (IF Pcf(pic) THEN ToBits(pic.cpcfc, 8) \o ToBits(pic.tr \div 256, 2) ELSE <<>>)       \* CPCFC, ETR: TR has 10 bits
            \o (IF Umv(pic) THEN (IF pic.uui = 1 THEN <<1>> ELSE <<0, 1>>) ELSE <<>>)              \* UUI: "1" limited, "01" unlimited
            \o ToBits(pic.q, 5) \o PeiBits(pic.pei, 1)
 
@@ -155,7 +159,8 @@ IsReal(mb) == mb.k # "stuff"
 RealMbs(pic) == SelectSeq(pic.mbs, IsReal)
 NMb(pic) == MbW(Dims(pic)[1]) * MbH(Dims(pic)[2])
 WellFormed(pic) ==
-    /\ pic.hk \in {"sor", "plus", "base"} /\ pic.pt \in {"I", "P", "D"} /\ pic.q \in 1..31 /\ pic.tr \in 0..255
+    /\ pic.hk \in {"sor", "plus", "base"} /\ pic.pt \in {"I", "P", "D"} /\ pic.q \in 1..31 /\ pic.tr \in 0..(IF Pcf(pic) THEN 1023 ELSE 255)
+    /\ Pcf(pic) => pic.cpcfc \in 0..255
     /\ pic.db \in {0, 1}
     /\ pic.hk = "sor" => (pic.ver \in 0..31 /\ pic.sc \in 0..6
                            /\ (pic.sc = 0 => pic.w \in 1..255 /\ pic.h \in 1..255) /\ (pic.sc = 1 => pic.w \in 1..65535 /\ pic.h \in 1..65535))
